@@ -23,17 +23,27 @@ token stream holds for valid and invalid messages alike):
    other, without changing what is parsed, valid or not (`edit_behind_line_break`,
    `comment_line_anywhere`, `blank_run_at_line_start`; from the locality of the lexer,
    `Lex.lexFrom_concat`);
-`layout_invariance_partial`: edits INSIDE a line (the amount of white space between two tokens of
-one line, a comment behind the last token of a line, letter case of number prefixes) are theorems
-only at a boundary the lexer is known to reach in both texts (`layout_invariance_at_boundary`);
-that the tokens of one line in front of such an edit are lexed alike needs locality of the lexer
-in front of any blank, not only in front of a line break. It is exercised by the metamorphic
-layout suite on the real code and by the correspondence run on both renderings.
+* inside a line, at any point where white space stands outside a string, a size declaration and a
+   comment (the text up to there, cut off by a line break, is lexed without a lexing error and no
+   `//` is open): the white space can be replaced by any other non-empty run of blanks, tabs, CRs
+   and line breaks, and a comment with any bytes can be put at the end of a line behind a blank,
+   without changing what is parsed - valid or not (`blank_runs_between_tokens`,
+   `comment_at_line_end`; from the locality of the lexer in front of any blank,
+   `Lex.lexFrom_blank`);
+ * every token carries the position of its first byte (`Lex.lexAll_positions`, Proofs/Lexer), so with
+   `diagnostics_move_with_tokens` diagnostics move with the tokens they point at.
+`layout_invariance_partial` - what is not a theorem: gaps of width zero (two tokens that touch
+against the same tokens separated - which pairs may touch is a matter of the token classes), a
+comment directly behind a token without a blank in between, and the letter case of number prefixes
+and exponents (`keyword_case` and `header_tokens_upper` cover keywords, type names, booleans and
+header tokens). These are exercised by the metamorphic layout suite on the real code and by the
+correspondence run on both renderings.
 -/
 import SecsModel.Model.Lexer
 import SecsModel.Proofs.LexLayout
 import SecsModel.Proofs.ParserNat
 import SecsModel.Proofs.LexConcat
+import SecsModel.Proofs.LexBlankConcat
 import SecsModel.Generated.Facts
 namespace Secs.C08
 open Secs Secs.Lex Secs.Sml
@@ -278,6 +288,59 @@ theorem blank_run_at_line_start (ual : List Nat) (x ws ws' y : Bytes) (hx : Ends
   apply content_of_erased_modulo_comments
   exact edit_behind_line_break ual .header x _ _ hx hne (fun m' => by rw [blank_runs_equivalent ual m' ws ws' y h h'])
 
+
+/-! ### white space between two tokens of a line, a comment behind the last token of a line
+(lexer locality in front of any blank, Proofs/LexBlank, LexBlankConcat) -/
+
+/-- **White space between two tokens, anywhere in a text.** `u` is the text up to a point where
+white space stands; cut off there by a line break it is lexed without a lexing error (the point is
+not inside a string or a size declaration), and no comment is open at its end. Then the white
+space that follows - any non-empty run of blanks, tabs, CRs and line breaks - can be replaced by
+any other non-empty run without changing what is parsed, whatever comes after it, valid or not. -/
+theorem blank_runs_between_tokens (ual : List Nat) (u : Bytes) (w1 w2 : Nat) (s1 s2 v : Bytes)
+    (hw1 : isBlank w1 = true) (hw2 : isBlank w2 = true)
+    (hs1 : ∀ b ∈ s1, isBlank b = true) (hs2 : ∀ b ∈ s2, isBlank b = true)
+    (hne : ∀ t ∈ (lexFrom ual .header (u ++ [10])).map eraseT, t.kind ≠ .error)
+    (hC : ∀ s, s <:+ u → startsWith [47, 47] s = true → 10 ∈ s) :
+    (parse ual (u ++ w1 :: (s1 ++ v))).content = (parse ual (u ++ w2 :: (s2 ++ v))).content := by
+  rw [parse_eq, parse_eq]
+  apply content_of_erased_modulo_comments
+  obtain ⟨ts1, a1, a2, _⟩ := lexFrom_blank ual (s1 ++ v) w1 hw1 u.length u .header (Nat.le_refl _) hne (Or.inr hC)
+  obtain ⟨ts2, b1, b2, _⟩ := lexFrom_blank ual (s2 ++ v) w2 hw2 u.length u .header (Nat.le_refl _) hne (Or.inr hC)
+  have : ts1 = ts2 := by
+    rw [a1] at b1
+    exact List.append_cancel_right b1
+  subst this
+  have e1 : lexFrom ual .header (u ++ w1 :: (s1 ++ v)) = lexFuel ual ((u ++ w1 :: (s1 ++ v)).length + 1) .header ⟨u ++ w1 :: (s1 ++ v), 1, []⟩ := rfl
+  have e2 : lexFrom ual .header (u ++ w2 :: (s2 ++ v)) = lexFuel ual ((u ++ w2 :: (s2 ++ v)).length + 1) .header ⟨u ++ w2 :: (s2 ++ v), 1, []⟩ := rfl
+  show ((lexFrom ual .header (u ++ w1 :: (s1 ++ v))).map eraseT).filter notComment = ((lexFrom ual .header (u ++ w2 :: (s2 ++ v))).map eraseT).filter notComment
+  rw [a2, b2, blank_runs_equivalent ual _ s1 s2 v hs1 hs2]
+
+/-- **A comment behind the last token of a line.** Under the same conditions a comment with any
+bytes can be put at the end of the line, behind a blank: the line `… <blank>//…` parses like the
+line without it. -/
+theorem comment_at_line_end (ual : List Nat) (u : Bytes) (w : Nat) (c v : Bytes) (hw : isBlank w = true)
+    (hc : ∀ b ∈ c, b ≠ 10)
+    (hne : ∀ t ∈ (lexFrom ual .header (u ++ [10])).map eraseT, t.kind ≠ .error)
+    (hC : ∀ s, s <:+ u → startsWith [47, 47] s = true → 10 ∈ s) :
+    (parse ual (u ++ w :: (47 :: 47 :: c ++ 10 :: v))).content = (parse ual (u ++ 10 :: v)).content := by
+  rw [parse_eq, parse_eq]
+  apply content_of_erased_modulo_comments
+  obtain ⟨ts1, a1, a2, _⟩ := lexFrom_blank ual (47 :: 47 :: c ++ 10 :: v) w hw u.length u .header (Nat.le_refl _) hne (Or.inr hC)
+  obtain ⟨ts2, b1, b2, _⟩ := lexFrom_blank ual v 10 (by decide) u.length u .header (Nat.le_refl _) hne (Or.inl rfl)
+  have : ts1 = ts2 := by
+    rw [a1] at b1
+    exact List.append_cancel_right b1
+  subst this
+  show ((lexFrom ual .header (u ++ w :: (47 :: 47 :: c ++ 10 :: v))).map eraseT).filter notComment = ((lexFrom ual .header (u ++ 10 :: v)).map eraseT).filter notComment
+  rw [a2, b2, List.filter_append, List.filter_append]
+  congr 1
+  exact comment_invisible ual _ c v hc
+
+/-! non-vacuity (tests): a text up to the blank behind a size declaration, a string with blanks
+and a hexadecimal literal meets the hypotheses of the two theorems above -/
+def sampleUpTo : Bytes := str "s1f1 w // c\n<l [2] <a \"x y\"> <u1 0x1f>"
+example : ∀ t ∈ (lexFrom [] .header (sampleUpTo ++ [10])).map eraseT, t.kind ≠ .error := by decide +kernel
 
 /-! ### tie to the source: what the two main states skip, and the comment trimming set -/
 theorem facts_whitespace :
